@@ -9,7 +9,7 @@ EXPLANATION = ('Static rules: P-a the source of a ConnectableObservable is subsc
                'ShareOp::new); P-b connect(self) consumes the connectable (no Clone impl) and in ShareOp*::actual_subscribe it is reachable '
                'only after the state was replaced by Connected, all under the ShareOp cell guard, so the source is subscribed exactly once '
                'also with racing first subscribers; P-c the last leaver is no longer counted when RefCountSubscription asks '
-               'is_empty() (either the subject size counts live publishers only, or retain() runs first), so the source is released; P-d the subject size covers both the live and the waiting list; P-f Publisher::p_is_closed counts a subscriber as gone when its observer finished by itself OR it was unsubscribed (both consulted); P-e the inner subject multicasts every notification to every present subscriber (same rules as C06.J1/J2/J6). '
+               'is_empty() (either the subject size counts live publishers only, or retain() runs first), so the source is released; P-d the subject size covers both the live and the waiting list; P-f Publisher::p_is_closed counts a subscriber as gone when its observer finished by itself OR it was unsubscribed (both consulted); P-e the inner subject multicasts every notification to every present subscriber (same rules as C06.J1/J2/J3/J4/J6). '
                'Does not decide join/leave histories beyond these rules; multicast itself is C06.')
 ASSUMPTIONS = []
 
@@ -137,11 +137,11 @@ def pf(cx):
 
 
 def pe(cx):
-    """every subscriber present at an emission receives it: the multicast rules of the inner subject (same rules as C06.J1/J2/J6)"""
+    """every subscriber present at an emission receives it: the multicast rules of the inner subject (same rules as C06.J1/J2/J3/J4/J6)"""
     from . import c06
     out = []
     for f in c06.check(cx):
-        if f.rule in ('J1', 'J2', 'J6') and ('subject::Subject<' in f.key or 'subject::SubjectThreads<' in f.key):
+        if f.rule in ('J1', 'J2', 'J3', 'J4', 'J6') and ('subject::Subject<' in f.key or 'subject::SubjectThreads<' in f.key):
             out.append(Finding(ID, 'P-e', f.rule + ':' + f.key, f.ok, f.msg, f.loc, f.witness))
     return out
 
